@@ -268,25 +268,39 @@ def decode_attack(data):
         k = dec.below(12)
         if k <= 4:
             tag = dec.pick(URI_TAGS)
-            attr = dec.pick(URI_ATTRS)
-            r = dec.below(10)
-            if r <= 4:
-                scheme = dec.pick(SCHEMES_BAD)
-            elif r <= 7:
-                scheme = dec.pick(SCHEMES_OK)
-            else:
-                scheme = dec.pick(SCHEMES_OK + SCHEMES_BAD)
-            low = scheme.lower().replace("&#97;", "a").replace("\t", "").strip()
-            body = dec.pick(DATA_BODIES) if low.endswith("data") else dec.pick(["alert(1)", "//example.com/", "x", "", "//a/b?c#d", "foo@bar", "%0aalert(1)"])
-            sep = "" if scheme.endswith(";") or scheme.endswith("%3A") else ":"
-            val = scheme + sep + body
-            q = dec.pick(['"', "'", ""])
-            if q == "":
-                val = re.sub(r"[ \t\n\x0c\r>]", "", val)
-            else:
-                val = val.replace(q, "")
-            pre = "<svg>" if attr == "xlink:href" and dec.below(2) else ""
-            parts.append("%s<%s %s=%s%s%s>x</%s>" % (pre, tag, attr, q, val, q, tag))
+            # usually one URI attribute per tag, sometimes several (the filter loops over them: one value must not decide for the others)
+            n_attr = 1 if dec.below(4) else 2 + dec.below(2)
+            attrs, seen = [], set()
+            pre = ""
+            for _ in range(n_attr):
+                attr = dec.pick(URI_ATTRS)
+                if attr in seen:
+                    continue
+                seen.add(attr)
+                if dec.below(8) == 0:
+                    # values a URL parser rejects or reads unusually
+                    val = dec.pick(["http://[", "h://]", "//[x]/", "https://[::1", "http://[::1]:x/", "http://a b/", "\\\\x", "?javascript:1", "#", "javascript&colon;x", "http://[v1.x]/", "//]"])
+                else:
+                    r = dec.below(10)
+                    if r <= 4:
+                        scheme = dec.pick(SCHEMES_BAD)
+                    elif r <= 7:
+                        scheme = dec.pick(SCHEMES_OK)
+                    else:
+                        scheme = dec.pick(SCHEMES_OK + SCHEMES_BAD)
+                    low = scheme.lower().replace("&#97;", "a").replace("\t", "").strip()
+                    body = dec.pick(DATA_BODIES) if low.endswith("data") else dec.pick(["alert(1)", "//example.com/", "x", "", "//a/b?c#d", "foo@bar", "%0aalert(1)"])
+                    sep = "" if scheme.endswith(";") or scheme.endswith("%3A") else ":"
+                    val = scheme + sep + body
+                q = dec.pick(['"', "'", ""])
+                if q == "":
+                    val = re.sub(r"[ \t\n\x0c\r>]", "", val)
+                else:
+                    val = val.replace(q, "")
+                if attr == "xlink:href" and dec.below(2):
+                    pre = "<svg>"
+                attrs.append("%s=%s%s%s" % (attr, q, val, q))
+            parts.append("%s<%s %s>x</%s>" % (pre, tag, " ".join(attrs), tag))
         elif k <= 7:
             decls = "; ".join(dec.pick(CSS_DECLS) for _ in range(1 + dec.below(3)))
             parts.append('<%s style="%s">y</%s>' % (dec.pick(["p", "div", "span", "svg", "td", "x"]), decls.replace('"', "'"), "p"))
